@@ -72,7 +72,7 @@ def family_case(ch, fx):
     return run_case(main, inc)
 
 
-def run_case(main, inc, limit=80, globs=None, dbg=False, from_text=True):
+def run_case(main, inc, limit=80, globs=None, dbg=False, from_text=True, prerun=False):
     c = {'kind': 'script', 'model': main, 'globals': (globs or []) + [PROBE], 'limit': limit, 'dbg': dbg, 'inc': inc}
     if from_text:
         # the includer is parsed from text too (adjacent include lines are merged by the parser)
@@ -83,6 +83,7 @@ def run_case(main, inc, limit=80, globs=None, dbg=False, from_text=True):
     for f in inc['vfs']:
         if f['kind'] == 'text' and not f.get('data'):
             f['model'] = A.amodel(realrun.bare_script.parse_script(f['text']))
+    c['prerun'] = prerun        # the host may re-use one options object: a run (possibly failing inside an include) before the observed one
     return realrun.observe(c)
 
 
@@ -92,8 +93,9 @@ FILES = ['m.bare', 'n.bare', 'o.bare']
 
 
 def rand_tree(rnd):
-    base_kind = rnd.choice(['path', 'url', 'none', 'abs'])
-    root = {'path': 'proj/main.bare', 'url': 'https://h.example/p/main.bare', 'none': '', 'abs': '/srv/x/main.bare'}[base_kind]
+    base_kind = rnd.choice(['path', 'url', 'none', 'abs', 'app', 'mem'])
+    root = {'path': 'proj/main.bare', 'url': 'https://h.example/p/main.bare', 'none': '', 'abs': '/srv/x/main.bare',
+            'app': 'app://host/p/q/main.bare', 'mem': 'mem:main.bare'}[base_kind]         # application schemes are URLs too
     sys_prefix = rnd.choice(['sysinc/', 'https://cdn.example/inc/', None])
     vfs = {}
     budget = [rnd.randint(2, 9)]
@@ -119,7 +121,9 @@ def rand_tree(rnd):
             budget[0] -= 1
             system = rnd.random() < 0.2
             refk = rnd.random()
-            if refk < 0.6:
+            if refk < 0.08:
+                ref = rnd.choice(['../up.bare', 'sub/../same.bare', 'q.bare?v=1', './dot.bare'][:3 if base_kind in ('path', 'abs') else 4][:2] if base_kind in ('path', 'abs') else ['../up.bare', 'sub/../same.bare', 'q.bare?v=1'])
+            elif refk < 0.6:
                 ref = rnd.choice(DIRS) + rnd.choice(FILES)
             elif refk < 0.75:
                 ref = '/abs/' + rnd.choice(FILES)
@@ -184,7 +188,7 @@ def rand_tree(rnd):
 def rand_case(seed):
     rnd = random.Random(seed)
     main, inc = rand_tree(rnd)
-    return run_case(main, inc, limit=300, dbg=rnd.random() < 0.2)
+    return run_case(main, inc, limit=300, dbg=rnd.random() < 0.2, prerun=rnd.random() < 0.25)
 
 
 def canaries(case):
